@@ -46,7 +46,11 @@ fn main() {
         return;
     }
     if args.len() >= 3 && args[1] == "replay" {
-        std::process::exit(replay_file(&properties(), &PathBuf::from(&args[2])));
+        let file = PathBuf::from(&args[2]);
+        if std::env::var("LMCHECK_CHILD").is_err() && isolated_replay(&file) {
+            std::process::exit(replay_in_child(&file));
+        }
+        std::process::exit(replay_file(&properties(), &file));
     }
     if args.len() < 3 {
         eprintln!("usage: lmcheck <ID> quick|thorough | lmcheck replay <file>");
@@ -72,9 +76,124 @@ fn main() {
         eprintln!("unknown property {}", args[1]);
         std::process::exit(2);
     };
+    if ISOLATED.contains(&prop.id) && std::env::var("LMCHECK_CHILD").is_err() {
+        std::process::exit(run_in_child(prop.id, &args[2], &cfg));
+    }
     // wall-clock / memory ceiling: inconclusive (exit 2), never a violation
     start_watchdog(tier.pick(900, 6 * 3600), 24_000);
     std::process::exit(run_property(prop, &cfg));
+}
+
+// --- process isolation ---------------------------------------------------------
+//
+// Some failures cannot be caught inside the process: a stack overflow (unbounded recursion on a long
+// input) or any other fatal signal kills it. For the properties listed here - C15: "never panic or hang",
+// of which "never kill the process" is the strongest form - the whole run happens in a child process; if
+// the child dies, the parent replays the cases the shards were working on (one trace file per shard), each
+// in its own child, and reports the one that dies again as the violation.
+
+const ISOLATED: &[&str] = &["C15"];
+
+fn isolated_replay(file: &std::path::Path) -> bool {
+    std::fs::read_to_string(file)
+        .ok()
+        .and_then(|s| serde_json::from_str::<ReplayFile>(&s).ok())
+        .map_or(false, |rf| ISOLATED.contains(&rf.property.as_str()))
+}
+
+fn died(status: &std::process::ExitStatus) -> bool {
+    !matches!(status.code(), Some(0) | Some(1) | Some(2))
+}
+
+fn death_signature(status: &std::process::ExitStatus, stderr: &str) -> (String, String) {
+    use std::os::unix::process::ExitStatusExt;
+    let what = if stderr.contains("has overflowed its stack") {
+        "stack-overflow".to_string()
+    } else if let Some(sig) = status.signal() {
+        format!("signal-{}", sig)
+    } else {
+        format!("exit-code-{}", status.code().unwrap_or(-1))
+    };
+    let line = stderr.lines().rev().find(|l| !l.trim().is_empty()).unwrap_or("").chars().take(200).collect::<String>();
+    (format!("process-died:{}", what), format!("the process running this case was killed ({:?}); last output: {}", status, line))
+}
+
+/// `lmcheck replay <file>` for an isolated property: the replay itself may kill the process.
+fn replay_in_child(file: &std::path::Path) -> i32 {
+    let exe = std::env::current_exe().expect("own path");
+    let out = std::process::Command::new(exe).arg("replay").arg(file).env("LMCHECK_CHILD", "1").output().expect("cannot start the child process");
+    print!("{}", String::from_utf8_lossy(&out.stdout));
+    if !died(&out.status) {
+        eprint!("{}", String::from_utf8_lossy(&out.stderr));
+        return out.status.code().unwrap_or(2);
+    }
+    let rf: Option<ReplayFile> = std::fs::read_to_string(file).ok().and_then(|s| serde_json::from_str(&s).ok());
+    let (sig, msg) = death_signature(&out.status, &String::from_utf8_lossy(&out.stderr));
+    println!("{} :: {}", sig, msg);
+    println!("VIOLATION property={} replay={}", rf.map(|r| r.property).unwrap_or_default(), file.display());
+    1
+}
+
+fn run_in_child(id: &str, tier: &str, cfg: &RunCfg) -> i32 {
+    use std::process::{Command, Stdio};
+    let t0 = std::time::Instant::now();
+    let exe = std::env::current_exe().expect("own path");
+    let trace = cfg.verif_dir.join("replays").join(format!(".trace-{}-{}", id, std::process::id()));
+    let _ = std::fs::remove_dir_all(&trace);
+    std::fs::create_dir_all(&trace).expect("cannot create the trace directory");
+    let status = Command::new(&exe).arg(id).arg(tier).env("LMCHECK_CHILD", "1").env("LMCHECK_TRACE", &trace).stdin(Stdio::null()).status().expect("cannot start the child process");
+    if !died(&status) {
+        let _ = std::fs::remove_dir_all(&trace);
+        return status.code().unwrap_or(2);
+    }
+    // the child died: which case was it?
+    let mut files: Vec<PathBuf> = std::fs::read_dir(&trace).map(|d| d.filter_map(|e| e.ok().map(|e| e.path())).collect()).unwrap_or_default();
+    files.sort();
+    let mut code = 2;
+    let mut replayed = 0u64;
+    let mut sample = serde_json::Value::Null;
+    for f in &files {
+        let out = match Command::new(&exe).arg("replay").arg(f).env("LMCHECK_CHILD", "1").output() {
+            Ok(o) => o,
+            Err(_) => continue,
+        };
+        replayed += 1;
+        if died(&out.status) {
+            let (sig, msg) = death_signature(&out.status, &String::from_utf8_lossy(&out.stderr));
+            let text = std::fs::read_to_string(f).unwrap_or_default();
+            if let Ok(mut rf) = serde_json::from_str::<ReplayFile>(&text) {
+                rf.signature = sig.clone();
+                rf.message = msg.clone();
+                let dir = cfg.verif_dir.join("replays").join(id);
+                let _ = std::fs::create_dir_all(&dir);
+                let body = serde_json::to_string_pretty(&rf).unwrap_or(text);
+                let dst = dir.join(format!("{}-died-{:016x}.json", rf.sub, engine::splitmix64(body.len() as u64 ^ body.bytes().fold(0u64, |a, b| a.wrapping_mul(131).wrapping_add(b as u64)))));
+                let _ = std::fs::write(&dst, body);
+                println!("[{}/{}] {} :: {}", id, rf.sub, sig, msg);
+                println!("VIOLATION property={} replay={}", id, dst.display());
+                sample = engine::abbreviate(&rf.case);
+                code = 1;
+                break;
+            }
+        }
+    }
+    if code == 2 {
+        eprintln!("INCONCLUSIVE: the checking process was killed ({:?}) and none of the {} traced cases kills it again when replayed alone (not a violation)", status, files.len());
+    }
+    // the child could not write its evidence: say what is known
+    let ev = serde_json::json!({
+        "property_id": id, "tier": tier, "seed": cfg.seed, "level": "exploration", "wall_s": t0.elapsed().as_secs_f64(),
+        "violations": if code == 1 { 1 } else { 0 },
+        "coverage": {
+            "evaluations": replayed, "distinct_nontrivial": 0, "exhaustive": false,
+            "rule": "the checking process was killed by a fatal signal before it could report; the cases its shards were working on were replayed one per child process to find the one that kills the process",
+            "samples": [sample],
+        },
+    });
+    let _ = std::fs::create_dir_all(cfg.verif_dir.join("evidence"));
+    let _ = std::fs::write(cfg.verif_dir.join("evidence").join(format!("{}.json", id)), serde_json::to_string_pretty(&ev).unwrap());
+    let _ = std::fs::remove_dir_all(&trace);
+    code
 }
 
 /// Write the committed seed corpora of the two fuzz targets (deterministic).
